@@ -17,7 +17,7 @@ def run(ctx):
         # the cover relation along HISTORIES: attributes deleted and re-created (possibly across a master-key round trip or
         # backup/restore), rotations, refreshes; the name-level reference semantics says who opens what
         m = 120 if ctx.quick() else 3000
-        hc.run_profile(ctx, profiles.with_scenarios(profiles.DYN, 0.5), m, claims=lambda op, a, b: op == 'DE' and a == 'NONE', label='cover relation along histories')
+        hc.run_profile(ctx, profiles.with_rotation(profiles.with_scenarios(profiles.DYN, 0.5), 0.15), m, claims=lambda op, a, b: op == 'DE' and a == 'NONE', label='cover relation along histories')
     hc.vm_crosscheck(ctx, H, model)
     hc.finish(ctx, f'{n} (default build) + {max(60, n // 4)} (p-256 + ml-kem-768 build) generated structures (1-4 dimensions, 0-4 attributes, both kinds, mixed hints, edits before the update) '
               'each with 2-5 user policies and 3-8 encryption policies (AND/OR/parentheses/*), all pairs decapsulated; oracle = name-level cover relation of the property text; '
